@@ -322,7 +322,7 @@ def exec_step(s: t.Any, side: str, step: t.Dict[str, t.Any], mdl: model.Model) -
     if op == "register":
         from . import custom
 
-        cls = custom.classes()[step["what"]]
+        cls = custom.classes(step.get("variant", "A"))[step["what"]]
         meth = {"control": "register_control", "filter": "register_filter", "auth": "register_auth_credential"}[step["what"]]
         try:
             getattr(s, meth)(cls)
